@@ -100,7 +100,7 @@ def tebd_controls(inp):
     hs = [0.3 * ops.sigma('x') + 0.1 * ops.sigma('z'), 0.5 * ops.sigma('y')]
     kick = ops.left_right_super(expm(-0.4j * ops.sigma('y')), expm(0.4j * ops.sigma('y')))
     damp = ops.left_right_super(np.diag([1.0, 0.5]), np.diag([1.0, 0.5]))
-    sched = [(kick, 0, 2, False), (damp, 1, 1, True), (damp, 0, 2, True), (kick, 1, 3, False), (damp, 0, 0, False)]
+    sched = [(kick, 0, 2, False), (damp, 1, 1, True), (damp, 0, 2, True), (kick, 1, 3, False), (damp, 0, 0, False), (kick, 1, 0, True)]
     bad = []
     for order_of_registration in (sched, sched[::-1]):
         chain = oqupy.SystemChain(hilbert_space_dimensions=[2] * N)
